@@ -37,6 +37,16 @@ Units(cl) == IF cl.mode = "send" THEN [k \in 1..Len(cl.unit) |-> CmdWire(cl.unit
 \* positions in the wire log of the entries written by a task
 Positions(wire, task) == SelectSeq([k \in 1..Len(wire) |-> k], LAMBDA k : wire[k].task = task)
 
+\* every command frame of a caller that needs a device type is immediately preceded, on the wire, by its own ENABLE
+\* DEVICE TYPE -- also when the command is written again after a reconnection (C15 under faults, judged with C17)
+PrefixBroken(wire, cl) ==
+    {k \in 1..Len(wire) :
+        /\ wire[k].task = cl.name
+        /\ \E j \in 1..Len(cl.unit) : cl.unit[j].dt # 0 /\ cl.unit[j].frame = wire[k].frame /\ cl.unit[j].bits = wire[k].bits
+        /\ ~\E j \in 1..Len(cl.unit) : /\ cl.unit[j].dt # 0 /\ cl.unit[j].frame = wire[k].frame /\ cl.unit[j].bits = wire[k].bits
+                                        /\ k > 1 /\ wire[k - 1].task = cl.name /\ wire[k - 1].bits = 16
+                                        /\ wire[k - 1].frame = EDTFrame(cl.unit[j].dt)}
+
 \* ---- C15 -----------------------------------------------------------------------------------
 CallerAtomic(wire, cl) ==
     LET pos == Positions(wire, cl.name)
@@ -149,6 +159,9 @@ RecoveryC(r, late) ==      \* late: leave the clauses the known finding explains
        ELSE IF \E k \in 1..Len(r.callers) : r.callers[k].exc = "CancelledError" /\ r.callers[k].cancelled = 0
                                              /\ ~(r.params.expect_failed = 1 /\ r.callers[k].after_loss = 1)
             THEN Fail("spurious-cancellation", 0)
+       ELSE IF \E k \in 1..Len(r.callers) : PrefixBroken(r.wire, r.callers[k]) # {}
+            THEN LET k == CHOOSE x \in 1..Len(r.callers) : PrefixBroken(r.wire, r.callers[x]) # {} IN
+                 Fail("command-without-its-device-type-prefix:" \o r.callers[k].name, CHOOSE w \in PrefixBroken(r.wire, r.callers[k]) : TRUE)
        ELSE IF badpair # {} /\ ~(late /\ Orphan(r) # "") THEN LET k == CHOOSE x \in badpair : TRUE IN
             Fail(CallerPairing(r.driver, r.wire, r.callers[k]) \o ":" \o r.callers[k].name \o Orphan(r), k)
        ELSE IF slow # {} THEN Fail("timeout-later-than-documented", CHOOSE k \in slow : TRUE)
